@@ -11,11 +11,12 @@ import math
 import numpy as np
 import pandas as pd
 
-from sim import workload
+from sim import seams, workload
 from sim.core import EndRun, close, np_seed
 from sim.models import hdm as H
 
 PROP = "C07"
+FORKS = True      # snapshot / restore events (core.Ctx.maybe_fork)
 LEVEL = "exploration"
 RULE = (
     "HDDDM / CDBD x divergence (Hellinger, Jensen-Shannon, user function) x detect_batch 1-3 x statistic x significance x subsets "
@@ -85,6 +86,8 @@ class SampleRecorder:
 
         def sample(frame, *a, **k):
             out = rec.orig(frame, *a, **k)
+            if seams.PAUSED[0]:
+                return out
             rec.log.append({"n": k.get("n", a[0] if a else None), "replace": k.get("replace", False),
                             "frame": frame.to_numpy(copy=True), "rows": out.to_numpy(copy=True)})
             return out
@@ -117,6 +120,7 @@ def _run(case, ctx, rec):
     epoch_by = "set_reference"
     for i, (op, rows, seed) in enumerate(case["events"]):
         ctx.step = i
+        det = ctx.maybe_fork(det)
         if op == "ref":
             X = np.array(rows, dtype=float)
             np.random.seed(seed)
